@@ -6,6 +6,8 @@ import ErbiumModel.Judge.C08
 import ErbiumModel.Judge.C16
 import ErbiumModel.Judge.C06
 import ErbiumModel.Judge.C15
+import ErbiumModel.Judge.DnsWire
+import ErbiumModel.Judge.C03
 /-! Line-protocol driver. stdin: `<suite> <input tokens> => <implementation observation>`;
     stdout: `<correspondence verdict> | <oracle verdict>` per line. -/
 open Erbium Util
@@ -24,6 +26,9 @@ def judge (suite : String) (inp obs : List String) : Verdict :=
   | "ratelimit" => Judge.C16.judgeRatelimit inp obs
   | "cache" => Judge.C06.judge inp obs
   | "route" => Judge.C15.judge inp obs
+  | "dnsdec" => Judge.DnsWire.judgeDec inp obs
+  | "dnsenc" => Judge.DnsWire.judgeEnc inp obs
+  | "inreply" => Judge.C03.judge inp obs
   | _ => badInput ("unknown-suite:" ++ suite)
 
 def judgeLine (line : String) : String :=
